@@ -106,6 +106,7 @@ func c15WalkStmts(list []ast.Stmt, held bool, fn string, targets map[string]bool
 			c15ScanExpr(s, false, false, fn, targets, out)
 		case *ast.BlockStmt:
 			c15WalkStmts(s.List, held, fn, targets, out)
+			held = held && !c15Unlocks(s)
 		case *ast.IfStmt:
 			if s.Init != nil {
 				c15WalkStmts([]ast.Stmt{s.Init}, held, fn, targets, out)
@@ -134,7 +135,30 @@ func c15WalkStmts(list []ast.Stmt, held bool, fn string, targets map[string]bool
 		default:
 			c15ScanExpr(st, held, false, fn, targets, out)
 		}
+		// flow-insensitive but conservative: a compound statement that unlocks on ANY path (not deferred)
+		// leaves the lock "not held" for everything after it
+		switch st.(type) {
+		case *ast.IfStmt, *ast.ForStmt, *ast.RangeStmt, *ast.SwitchStmt, *ast.TypeSwitchStmt, *ast.SelectStmt, *ast.LabeledStmt:
+			held = held && !c15Unlocks(st)
+		}
 	}
+}
+
+// does the node contain a non-deferred X.wmu.Unlock() (outside function literals)?
+func c15Unlocks(n ast.Node) bool {
+	found := false
+	ast.Inspect(n, func(x ast.Node) bool {
+		switch e := x.(type) {
+		case *ast.FuncLit, *ast.DeferStmt:
+			return false
+		case *ast.ExprStmt:
+			if c15IsWmuCall(e.X, "Unlock") {
+				found = true
+			}
+		}
+		return !found
+	})
+	return found
 }
 
 // finds close(X.stopCh) and calls of target functions inside a node; function literals are walked as
@@ -231,7 +255,40 @@ func c15CloseFacts() ([]string, error) {
 
 // ---------------------------------------------------------------- T3: hammer (parent side)
 
-func c15CloseChecks(c *Ctx) {
+type c15Child struct {
+	done   chan struct{}
+	out    []byte
+	err    error
+	rounds int
+	procs  int
+	cmd    *exec.Cmd
+	tmp    string
+}
+
+// starts `hx c15hammer` (close hammer, duplicate-connection livelock, goroutine-leak probes) in a child process
+func c15StartChild(c *Ctx) *c15Child {
+	ch := &c15Child{done: make(chan struct{}), rounds: 60000}
+	if c.Tier == "thorough" {
+		ch.rounds = 200000
+	}
+	exe, err := os.Executable()
+	if err != nil {
+		ch.err = err
+		close(ch.done)
+		return ch
+	}
+	ch.tmp, _ = os.MkdirTemp("", "c15hammer")
+	ch.procs = runtime.NumCPU()
+	if ch.procs < 4 {
+		ch.procs = 4
+	}
+	ch.cmd = exec.Command(exe, "c15hammer", "-n", strconv.Itoa(ch.rounds), "-seed", strconv.FormatInt(c.Seed, 10), "-out", ch.tmp)
+	ch.cmd.Env = append(os.Environ(), "GOMAXPROCS="+strconv.Itoa(ch.procs))
+	go func() { ch.out, ch.err = ch.cmd.CombinedOutput(); close(ch.done) }()
+	return ch
+}
+
+func c15CloseChecks(c *Ctx, ch *c15Child) {
 	rows, err := c15CloseFacts()
 	if err != nil {
 		c15Fail(c, "c15/close-facts-unavailable", "cannot extract the close sites from the p2p sources: "+err.Error(), nil)
@@ -245,35 +302,20 @@ func c15CloseChecks(c *Ctx) {
 		}
 	}
 
-	rounds := 60000
-	if c.Tier == "thorough" {
-		rounds = 200000
-	}
-	exe, err := os.Executable()
-	if err != nil {
-		c15Fail(c, "c15/harness", "os.Executable: "+err.Error(), nil)
-		return
-	}
-	tmp, _ := os.MkdirTemp("", "c15hammer")
-	defer os.RemoveAll(tmp)
-	procs := runtime.NumCPU()
-	if procs < 4 {
-		procs = 4
-	}
-	cmd := exec.Command(exe, "c15hammer", "-n", strconv.Itoa(rounds), "-seed", strconv.FormatInt(c.Seed, 10), "-out", tmp)
-	cmd.Env = append(os.Environ(), "GOMAXPROCS="+strconv.Itoa(procs))
-	done := make(chan struct{})
-	var outb []byte
-	var runErr error
-	go func() { outb, runErr = cmd.CombinedOutput(); close(done) }()
 	select {
-	case <-done:
-	case <-time.After(5 * time.Minute):
-		cmd.Process.Kill()
-		<-done
-		c15Fail(c, "c15/close-hammer-stuck", "the close hammer did not finish within 5 minutes (a closer or readLoop is stuck)", nil)
+	case <-ch.done:
+	case <-time.After(6 * time.Minute):
+		if ch.cmd != nil && ch.cmd.Process != nil {
+			ch.cmd.Process.Kill()
+		}
+		<-ch.done
+		c15Fail(c, "c15/close-hammer-stuck", "the hammer child did not finish within 6 minutes (a closer, readLoop or handlePeer is stuck)", nil)
 	}
-	out := string(outb)
+	if ch.tmp != "" {
+		defer os.RemoveAll(ch.tmp)
+	}
+	rounds, procs, runErr := ch.rounds, ch.procs, ch.err
+	out := string(ch.out)
 	result := "panicked=false closed=true"
 	var lines []string
 	for _, l := range strings.Split(out, "\n") {
@@ -295,13 +337,24 @@ func c15CloseChecks(c *Ctx) {
 		c15Fail(c, "c15/close-race-panic", detail, map[string]interface{}{"rounds": rounds, "gomaxprocs": procs,
 			"scenario": "frame with unassigned code 0x1f + 6 garbage bytes in one write, consumer closes like handlePeer while readLoop closes on the garbage; and 8 goroutines calling Close behind a barrier"})
 	} else if runErr != nil {
-		c15Fail(c, "c15/close-hammer-failed", "the close hammer child failed: "+runErr.Error()+": "+c15Tail(out, 600), nil)
+		c15Fail(c, "c15/close-hammer-failed", "the hammer child failed: "+runErr.Error()+": "+c15Tail(out, 600), nil)
 	}
 	if strings.Contains(out, "hammer not-closed") {
 		result = strings.Replace(result, "closed=true", "closed=false", 1)
 		c15Fail(c, "c15/close-not-closed", "after every closer returned the peer is not closed", nil)
 	}
 	c.Op("closehammer 8", result)
+	for _, l := range lines {
+		switch {
+		case strings.HasPrefix(l, "hammer dup-livelock"):
+			c15Fail(c, "c15/dup-peer-livelock", "Server.run stops for good after a few connections with the same node id: it closes the duplicate on its own goroutine, Close publishes SrvDeletePeer and spins until delPeerCh (capacity 1, drained only by Server.run) takes it — "+l,
+				map[string]interface{}{"scenario": "one established connection, then further connections that complete the handshake with the same key"})
+		case strings.HasPrefix(l, "hammer handlepeer-leak"):
+			c15Fail(c, "c15/handlepeer-goroutine-leak", "connections that the remote drops while idle leave ProtocolManager.handlePeer blocked for ever (handleMsg waits in msgCache.Pop and never sees the reader's error): "+l, nil)
+		case strings.HasPrefix(l, "hammer handshake-leak"):
+			c15Fail(c, "c15/handshake-timeout-goroutine-leak", "a remote that never answers the protocol handshake leaves the reader goroutine of peer.Handshake blocked on its unbuffered channel after the 8 s timeout: "+l, nil)
+		}
+	}
 }
 
 func c15Tail(s string, n int) string {
@@ -450,4 +503,6 @@ func c15Hammer(c *Ctx) {
 	if m, _ := first.Load().(string); m != "" {
 		fmt.Println(m)
 	}
+	c15ChildLeaks()
+	c15ChildDupPeers() // last: on the defect it leaves Server.run spinning until the process exits
 }
